@@ -184,6 +184,13 @@ func c06Gen(tier string, seed int64) []core.Case {
 			cs = append(cs, core.Case{ID: id, Class: id, Kind: "w2", P: p, Cost: sc.cost + 1})
 		}
 	}
+	// W4: retransmissions at a later point - every time a party changes round (and when it has finished) it is handed,
+	// once more, every message it has received so far, including those of rounds long past
+	for _, sc := range append(faultSessions(tier), smallFaultSessions()...) {
+		p := sc.P()
+		id := fmt.Sprintf("W4/%s/n=%d,sel=%v,new=%d/late-retransmissions", sc.proto, sc.n, sc.sel, sc.nn)
+		cs = append(cs, core.Case{ID: id, Class: id, Kind: "w4", P: p, Cost: sc.cost * 3})
+	}
 	// W3
 	for _, fn := range w3Names() {
 		id := "W3/" + fn
@@ -249,8 +256,93 @@ func c06Run(c core.Case, env *core.Env) core.Result {
 		c06Theta(&r, s)
 	case "w2":
 		c06Wire(&r, s, c.P.Str("target"), c.P.Int("mutants"), env)
+	case "w4":
+		c06Late(&r, s, env)
 	}
 	return r
+}
+
+func btoi(b bool) int {
+	if b {
+		return 1
+	}
+	return 0
+}
+
+// c06Late: a transport with at-least-once delivery and arbitrary delay. After every step in which a party's round changed,
+// and once more after it finished, every genuine message that party has received so far is handed to it again. Each call
+// must return; the run must still end with the protocol's result (the outcome oracle is applied).
+func c06Late(r *core.Result, s *session, env *core.Env) {
+	w, in, err := s.make(env.Seed + 11)
+	if err != nil {
+		r.Inconcl("cannot build: %v", err)
+		return
+	}
+	type rec struct {
+		wire []byte
+		from *tss.PartyID
+		bc   bool
+		key  string
+	}
+	got := map[*sim.Node][]rec{}
+	lastRound := map[*sim.Node]int{}
+	finishedReplayed := map[*sim.Node]bool{}
+	failed := false
+	replay := func(n *sim.Node, why string) {
+		for _, m := range got[n] {
+			if failed {
+				return
+			}
+			if p, msg, st := guard(func() { n.Party.UpdateFromBytes(m.wire, m.from, m.bc) }); p {
+				r.Fail("W4:panic:"+core.TopLibFrame(st), "%s panicked when %s was handed to it again %s (round %d): %s", n.Name, m.key, why, roundOf(n), msg)
+				r.Witness = st
+				failed = true
+				return
+			}
+			r.Count("late_retransmissions_survived", 1)
+		}
+	}
+	w.OnDelivered = append(w.OnDelivered, func(ev *sim.Event, ok bool, err *tss.Error) {
+		if ev.Tag == "" && ev.Msg != nil {
+			got[ev.Node] = append(got[ev.Node], rec{ev.Wire, ev.FromPID, ev.Bcast, ev.Msg.Key()})
+		}
+	})
+	w.AfterStep = append(w.AfterStep, func(ev *sim.Event) {
+		n := ev.Node
+		if n == nil || failed || !n.Started {
+			return
+		}
+		if len(n.Ended) > 0 {
+			if !finishedReplayed[n] {
+				finishedReplayed[n] = true
+				replay(n, "after it had finished")
+			}
+			return
+		}
+		if cur := roundOf(n); cur != lastRound[n] {
+			lastRound[n] = cur
+			replay(n, "after a round change")
+		}
+	})
+	w.Run(sim.StartsThen(sim.FIFO), nil)
+	if failed {
+		return
+	}
+	// parties that finished during the last steps
+	for _, n := range w.Nodes {
+		if len(n.Ended) > 0 && !finishedReplayed[n] {
+			finishedReplayed[n] = true
+			replay(n, "after it had finished")
+		}
+	}
+	w.Run(sim.FIFO, nil)
+	if failed {
+		return
+	}
+	s.outcome(r, w, in, "W4")
+	c06After(r, w, "W4:"+s.Proto)
+	r.NonTrivial = r.Obs["late_retransmissions_survived"] > 0
+	r.Sample = map[string]any{"case": "W4/" + s.Proto, "retransmissions": r.Obs["late_retransmissions_survived"]}
 }
 
 func c06After(r *core.Result, w *sim.World, what string) {
